@@ -66,3 +66,26 @@ Proof. exact gen_encode_swap. Qed.
 (* every token fits in a byte *)
 Theorem T06_gen_tokens_byte : forall s p l, EncodingGen.encode p s = Ok l -> Forall (fun t => 0 <= t < 256) l.
 Proof. exact gen_tokens_byte. Qed.
+
+(* ---- decode (the tensor is the list of its entries) ---- *)
+(* `agrees r o`: r = Ok p and o = Some p, or r = Crash e with e one of IndexError / AssertionError / KeyError /
+   AttributeError and o = None (the hand model collapses decode()'s exceptions into None).  The guard is the range on
+   which int(n ** (1 / 2)) is modelled (a tensor shorter than 2^52 entries) *)
+Theorem T06_gen_decode_agrees : forall toks, zlen toks < 2 ^ 52 -> agrees (EncodingGen.decode toks) (decode_pos toks).
+Proof. exact gen_decode_agrees. Qed.
+Theorem T06_gen_decode_ok_iff : forall toks p, zlen toks < 2 ^ 52 ->
+  (EncodingGen.decode toks = Ok p <-> decode_pos toks = Some p).
+Proof. exact gen_decode_ok_iff. Qed.
+(* a position or one of the four exception classes; nothing else *)
+Theorem T06_gen_decode_outcomes : forall toks, zlen toks < 2 ^ 52 ->
+  (exists p, EncodingGen.decode toks = Ok p) \/ (exists e, EncodingGen.decode toks = Crash e /\ decode_exn e = true).
+Proof. exact gen_decode_outcomes. Qed.
+(* the square loop alone, for every token list and every state of the accumulators *)
+Theorem T06_gen_decode_go : forall to_play toks cur acc,
+  loop_agrees (EncodingGen.decode_for2 to_play acc cur toks) (decode_go to_play toks cur acc).
+Proof. exact gen_decode_go. Qed.
+(* lossless through the translated encode AND the translated decode *)
+Theorem T06_gen_round_trip : forall s p, encodable p ->
+  exists l, EncodingGen.encode p s = Ok l /\
+    (zlen l < 2 ^ 52 -> exists q, EncodingGen.decode l = Ok q /\ triple q = (board p, to_move p, reserves p)).
+Proof. exact gen_round_trip. Qed.
